@@ -121,11 +121,18 @@ class Contract:
         return env, None
 
     def havoc(self, st, mods):
+        """forget the contents of the objects a callee may modify; an entry (addr, cond) is modified only when cond holds"""
         for a in mods:
+            cond = None
+            if isinstance(a, tuple):
+                a, cond = a
             for comp, sort in HEAP_SORTS.items():
                 if comp in ("cls_of", "cdict", "gwit"):
                     continue          # ghost state changes only through explicit ghost assignments in contracts
-                st.heap[comp] = z3.Store(st.heap[comp], a, fresh("hv_" + comp, sort.range()))
+                new = fresh("hv_" + comp, sort.range())
+                if cond is not None:
+                    new = z3.If(cond, new, z3.Select(st.heap[comp], a))
+                st.heap[comp] = z3.Store(st.heap[comp], a, new)
         na = fresh("alloc", I)
         st.assume(na >= st.alloc)
         st.alloc = na
@@ -145,7 +152,10 @@ class Contract:
             eng.oblige(st, "call-pre.%s.%s" % (nm, cn), g, kind="call-pre")
         mods = list(self.modifies(c))
         for a in mods:
-            eng.check_write(st, a, "modifies of %s" % nm)
+            if isinstance(a, tuple):
+                eng.check_write(st, a[0], "modifies of %s" % nm, cond=a[1])
+            else:
+                eng.check_write(st, a, "modifies of %s" % nm)
         out = []
         post = st.fork()
         self.havoc(post, mods)
@@ -230,8 +240,10 @@ class Contract:
         if s.check() != z3.sat:
             raise RuntimeError("precondition of %s not shown satisfiable (%s)" % (nm, s.check()))
         mods = list(self.modifies(c))
-        st.frames = ({"owner": nm, "label": "modifies", "alloc": st.alloc,
-                      "allow": (lambda addr, A=mods: z3.Or(*[addr == m for m in A]) if A else z3.BoolVal(False))},)
+        def allow(addr, A=mods):
+            alts = [z3.And(addr == m[0], m[1]) if isinstance(m, tuple) else addr == m for m in A]
+            return z3.Or(*alts) if alts else z3.BoolVal(False)
+        st.frames = ({"owner": nm, "label": "modifies", "alloc": st.alloc, "allow": allow},)
         entry = st.fork()
         c.pre = entry
         st = st.fork()
